@@ -329,6 +329,37 @@ impl ConversionQ {
     fn is_empty(&self) -> bool { self.page_nodes.is_empty() }
 }
 
+// Where a chain of indirect references ends.
+enum ChainEnd<'a> {
+    // The first object in the chain that is not a reference.
+    Object(&'a Rc<LocatedVal<PDFObjT>>),
+    // A reference to an identifier that is not defined.
+    Undefined(&'a Rc<LocatedVal<PDFObjT>>, ObjectId),
+    // A reference to an identifier that the chain has already visited:
+    // the chain loops and never reaches an object.
+    Loop(&'a Rc<LocatedVal<PDFObjT>>, ObjectId),
+}
+
+// Follows a chain of indirect references starting at `o`.  This is
+// iterative and remembers the identifiers it has visited, so that
+// neither a long chain nor a chain that loops can exhaust the stack.
+fn follow_references<'a>(
+    ctxt: &'a PDFObjContext, o: &'a Rc<LocatedVal<PDFObjT>>,
+) -> ChainEnd<'a> {
+    let mut visited = BTreeSet::new();
+    let mut o = o;
+    while let PDFObjT::Reference(r) = o.val() {
+        if !visited.insert(r.id()) {
+            return ChainEnd::Loop(o, r.id())
+        }
+        match ctxt.lookup_obj(r.id()) {
+            Some(next) => o = next,
+            None => return ChainEnd::Undefined(o, r.id()),
+        }
+    }
+    ChainEnd::Object(o)
+}
+
 // Table 29, page 98 (2020 edn)
 pub fn to_catalog(
     ctxt: &PDFObjContext, q: &mut ConversionQ, dom: &mut DOMContext, o: &LocatedVal<PDFObjT>,
@@ -350,13 +381,16 @@ pub fn to_catalog(
 
 // Table 30, page 103 (2020 edn)
 fn to_page_kids(
-    ctxt: &PDFObjContext, q: &mut ConversionQ, r: &Option<Rc<Resources>>, o: &LocatedVal<PDFObjT>,
+    ctxt: &PDFObjContext, q: &mut ConversionQ, r: &Option<Rc<Resources>>,
+    o: &Rc<LocatedVal<PDFObjT>>,
 ) -> Option<Vec<ObjectId>> {
     match o.val() {
-        PDFObjT::Reference(rf) => {
+        PDFObjT::Reference(_) => {
             // handle reference to an array
-            ctxt.lookup_obj(rf.id())
-                .and_then(|o| to_page_kids(ctxt, q, r, o))
+            match follow_references(ctxt, o) {
+                ChainEnd::Object(o) => to_page_kids(ctxt, q, r, o),
+                _ => None,
+            }
         },
         PDFObjT::Array(a) => {
             let mut kids = Vec::new();
@@ -465,9 +499,10 @@ fn to_page_content(
     ctxt: &PDFObjContext, o: &Rc<LocatedVal<PDFObjT>>,
 ) -> Option<Rc<LocatedVal<PDFObjT>>> {
     match o.val() {
-        PDFObjT::Reference(r) => ctxt
-            .lookup_obj(r.id())
-            .and_then(|o| to_page_content(ctxt, o)),
+        PDFObjT::Reference(_) => match follow_references(ctxt, o) {
+            ChainEnd::Object(o) => to_page_content(ctxt, o),
+            _ => None,
+        },
         PDFObjT::Stream(_) => Some(Rc::clone(o)),
         _ => None,
     }
@@ -477,9 +512,10 @@ fn to_page_contents(
     ctxt: &PDFObjContext, o: &Rc<LocatedVal<PDFObjT>>,
 ) -> Option<Vec<Rc<LocatedVal<PDFObjT>>>> {
     match o.val() {
-        PDFObjT::Reference(r) => ctxt
-            .lookup_obj(r.id())
-            .and_then(|o| to_page_contents(ctxt, o)),
+        PDFObjT::Reference(_) => match follow_references(ctxt, o) {
+            ChainEnd::Object(o) => to_page_contents(ctxt, o),
+            _ => None,
+        },
         PDFObjT::Stream(_) => Some(vec![Rc::clone(o)]),
         PDFObjT::Array(a) => {
             let mut v = Vec::new();
@@ -496,7 +532,7 @@ fn to_page_contents(
 }
 
 fn to_resource_font_value(
-    ctxt: &PDFObjContext, dom: &mut DOMContext, o: &LocatedVal<PDFObjT>,
+    ctxt: &PDFObjContext, dom: &mut DOMContext, o: &Rc<LocatedVal<PDFObjT>>,
 ) -> Result<BTreeMap<DictKey, Rc<FontDictionary>>, LocatedVal<PageDOMError>> {
     let mut fonts = BTreeMap::new();
     match o.val() {
@@ -527,9 +563,12 @@ fn to_resource_font_value(
                 }
             }
         },
-        PDFObjT::Reference(r) => match ctxt.lookup_obj(r.id()) {
-            Some(o) => return to_resource_font_value(ctxt, dom, o),
-            None => return Err(o.place(PageDOMError::ResourceFontValueUnknownObjectId(r.id()))),
+        PDFObjT::Reference(_) => match follow_references(ctxt, o) {
+            ChainEnd::Object(o) => return to_resource_font_value(ctxt, dom, o),
+            ChainEnd::Undefined(o, id) => {
+                return Err(o.place(PageDOMError::ResourceFontValueUnknownObjectId(id)))
+            },
+            ChainEnd::Loop(o, id) => return Err(o.place(PageDOMError::ReferenceLoop(id))),
         },
         _ => return Err(o.place(PageDOMError::ResourceFontValueNotDict)),
     }
@@ -651,9 +690,10 @@ fn to_encoding(
             Err(_) => Err(o.place(PageDOMError::FontDictConversionUnknownEncoding)),
         },
         PDFObjT::Dict(_) => Ok(FontEncoding::Dict(Rc::clone(o))),
-        PDFObjT::Reference(r) => match ctxt.lookup_obj(r.id()) {
-            Some(o) => to_encoding(ctxt, o),
-            None => Err(o.place(PageDOMError::FontDictConversionBadEncoding)),
+        PDFObjT::Reference(_) => match follow_references(ctxt, o) {
+            ChainEnd::Object(o) => to_encoding(ctxt, o),
+            ChainEnd::Undefined(o, _) => Err(o.place(PageDOMError::FontDictConversionBadEncoding)),
+            ChainEnd::Loop(o, id) => Err(o.place(PageDOMError::ReferenceLoop(id))),
         },
         _ => Err(o.place(PageDOMError::FontDictConversionBadEncoding)),
     }
@@ -775,6 +815,7 @@ pub enum PageDOMError {
     FontDictConversionBadEncoding,
     FontDictConversionBadFontDictionary,
     FontDictUnresolvedId(ObjectId),
+    ReferenceLoop(ObjectId), // a chain of indirect references returns to this object
 }
 
 // The DOM constructor builds the DOM starting from the '/Root'
